@@ -9,11 +9,11 @@ CONSTANTS
   Deltas = {4}
   MaxChanges = 0
   MaxCancels = 1
-  SkipCancelled = TRUE
+  SkipCancelled = FALSE
   Timely = TRUE
   StaleFullBucket = TRUE
   StaleRateOnChange = FALSE
-  Fifo = FALSE
+  Fifo = TRUE
   StallBound = 8
   BypassBound = 1
   Slack = 2
